@@ -248,6 +248,12 @@ func checkRuneErrorWidth(r *Run, prog *Program, pfx string) {
 					width = true
 				}
 			}
+			for _, res := range sm.Results {
+				// a predicate that answers with the width test itself (`return rn == RuneError && w == 0`)
+				if res != nil && (strings.Contains(res.Key(), ".w)") || strings.Contains(res.Key(), ".w,")) {
+					width = true
+				}
+			}
 			if assumed && !width {
 				ok = false
 				where = strings.Join(sm.St.trail, " ")
